@@ -18,7 +18,7 @@ for d in sorted(glob.glob(os.path.join(ROOT, "seeded", "*"))):
 hdr = """### 9.5 Seeded changes and which checks catch them
 
 %d changes to txtpp were written by sub-agents that saw only the text of one property and a scratch worktree
-(seven rounds; the second asked for less obvious sites, the third and fourth (`"round"` in meta.json) for three mutually
+(eight rounds; the second asked for less obvious sites, the third and fourth (`"round"` in meta.json) for three mutually
 different mechanisms per property with narrow failing inputs, schedule-dependent ones included; the fifth and sixth were
 confined to the ENTRY LAYER - src/main.rs, lib.rs, config.rs, progress.rs, error.rs, shell.rs: how an invocation becomes a
 run and how its result is reported). Each was confirmed in a scratch worktree (`tools/confirm_seeds.sh`,
@@ -50,7 +50,11 @@ reads its temp file back + an edit of the temp body: added as a scenario), C07-1
 clean (added), C10-9 a top-level `-N` in front of `clean` (C10 had no CLI job: cli10 added), C10-10 `after` of a missing file
 creates it (the generator never wrote `after` of a file without source: added), C12-8 the skip-if-unchanged tests ignore line
 terminators (needs a rebuild after the source's ending changed: the C12 job now flips the first line's ending and rebuilds,
-plain or only-if-needed) - all caught now.
+plain or only-if-needed) - all caught now. Round 8 (C02-C05, C11, C13-C15, 24 changes): 22 caught at once; the other two were
+changes in the line loop that the function-level jobs of C14 / C15 cannot see (a listening tag that ignores an empty output;
+a dependency directive on the last line of a file dropped in collect mode) - C14 and C15 now also have end-to-end jobs
+(c14e, c15e: exhaustive small sources through `Txtpp::run` vs the model) and every other schedule-world file with
+dependencies now ends with its dependency directive as the last line.
 
 | id | property | what the change does | caught by (quick tier) |
 |----|----------|----------------------|------------------------|
